@@ -149,6 +149,16 @@ def run_orient(sc, workdir):
         pars[nm + "_pd_n"] = rng.choice([1, 2, 3, 4])        # one point: the jitter is zero, not the view angle
         pars[nm + "_pd_type"] = rng.choice(["gaussian", "rectangle", "uniform"])
         pars[nm + "_pd_nsigma"] = rng.choice([2.0, 3.0])
+    if sc.get("directed") == "zero-view":
+        # jitter about a view angle that is exactly zero (the default of most models)
+        nm = rng.choice(["theta", "phi"])
+        pars[nm] = 0.0
+        theta, phi = pars["theta"], pars["phi"]
+        pars.update({nm + "_pd": 20.0, nm + "_pd_n": 3, nm + "_pd_type": "gaussian", nm + "_pd_nsigma": 2.0})
+    elif sc.get("directed") == "near-limit":
+        # a view angle close to the end of the parameter's range: the jitter is about zero all the same
+        phi = pars["phi"] = rng.choice([330.0, -330.0])
+        pars.update({"phi_pd": 15.0, "phi_pd_n": 4, "phi_pd_type": "gaussian", "phi_pd_nsigma": 3.0})
     # combined size + angle dispersity: one size parameter with more points than any angle (so that it is the
     # innermost loop of the kernel), low-weight end points, and a cutoff that removes some mesh points
     sizes = sorted(p.name for p in P.call_parameters if p.polydisperse and p.type == "volume")
@@ -202,7 +212,9 @@ def run_orient(sc, workdir):
             v, d, w = byname[nm]
             return {"v": fvec(d), "w": fvec(w)}, list(d), list(w)
         return {"v": ["0.0"], "w": ["1.0"]}, [0.0], [1.0]
-    ev["jreq"] = {nm: {"n": int(pars.get(nm + "_pd_n", 0)), "width": fstr(pars.get(nm + "_pd", 0.0))} for nm in ("theta", "phi", "psi")}
+    ev["jreq"] = {nm: {"n": int(pars.get(nm + "_pd_n", 0)), "width": fstr(pars.get(nm + "_pd", 0.0)),
+                       "type": str(pars.get(nm + "_pd_type", "gaussian")), "nsigma": fstr(pars.get(nm + "_pd_nsigma", 3.0))}
+                  for nm in ("theta", "phi", "psi")}
     ev["jt"], dt, _ = jit("theta")
     ev["jp"], dp, _ = jit("phi")
     ev["js"], ds, _ = jit("psi")
